@@ -19,17 +19,17 @@ def levels(tier):
     edits = ["we", "delwe", "addprefix", "rmprefix", "moveprefix", "page"]
     if tier == "quick":
         return [
-            {"name": "n2", "shapes": [[1, 2, 3]], "n": 2, "alphabet": edits},
-            {"name": "n3", "shapes": [[1, 2, 2]], "n": 3, "alphabet": ["we", "delwe", "addprefix"]},
-            {"name": "refused", "shapes": [[1, 2, 2]], "n": 2, "prelude": [["we", [[1, 1], [2, 2]]]],
-             "alphabet": ["we", "delbad", "deldup"], "we_two_prefixes": True},
             {"name": "rmforeign", "shapes": [[1, 2, 2]], "n": 1, "prelude": [["we", [[1, 1], [2, 2]]]], "alphabet": ["rmforeign"]},
             {"name": "variants", "shapes": [[1, 2, 2]], "n": 1, "prelude": [["we", [[1, 1], [2, 2]]], ["we", [[0, 1]]]],
              "alphabet": ["delwe", "rmprefix", "moveprefix"], "api_variants": True},
             {"name": "auto-links", "typed": [{"hosts": 2, "paths": 1}, {"hosts": 2, "paths": 1, "scheme": None}], "default": "domain",
              "anchored": (0, 3, "path1"), "n": 1, "alphabet": ["links", "page"], "links_batch": 1},
+            {"name": "n2", "shapes": [[1, 2, 3]], "n": 2, "alphabet": edits},
             {"name": "auto-n2", "typed": TPOOL, "default": "domain", "anchored": (1, 3, "path1"), "n": 2, "alphabet": ["we", "page"],
              "every_step": True},
+            {"name": "refused", "shapes": [[1, 2, 2]], "n": 2, "prelude": [["we", [[1, 1], [2, 2]]]],
+             "alphabet": ["we", "delbad", "deldup"], "we_two_prefixes": True},
+            {"name": "n3", "shapes": [[1, 2, 2]], "n": 3, "alphabet": ["we", "delwe", "addprefix"]},
         ]
     return [
         {"name": "n2-wide", "shapes": [[1, 2, 3]], "n": 2, "alphabet": edits + ["rmforeign", "delbad", "deldup"]},
